@@ -69,7 +69,7 @@ func (Prop) Assumptions() []string {
 var derivations = []string{"session_batch", "session", "session", "with_context", "debug", "begin", "session_newdb", "session_skiphooks", "session_newdb_skiphooks", "session_newdb_ctx", "session_ctx_skiphooks"}
 var readFins = []string{"find", "find", "first", "take", "count", "pluck", "rows", "scan", "find_in_batches", "first_or_init", "count_direct", "count_direct", "pluck_direct", "rows_direct", "scan_direct", "last", "row_direct", "row_direct", "row", "tx_direct"}
 var writeFins = []string{"update", "updates", "delete", "create", "update_direct", "create_slice_direct", "create_slice_direct"}
-var methods = []string{"model", "model", "where", "where", "where", "or", "not", "select", "omit", "order", "order", "limit", "offset", "group", "having", "joins", "joins", "distinct", "unscoped", "scopes", "preload", "returning", "returning", "order_clause", "locking", "on_conflict", "table", "model", "attrs", "assign", "where_sub", "where_group", "where_group", "joins_db", "table", "from_clause", "group_clause", "limit_clause", "insert_modifier", "inner_joins", "select_expr", "omit_assoc"}
+var methods = []string{"preload", "preload", "model", "model", "where", "where", "where", "or", "not", "select", "omit", "order", "order", "limit", "offset", "group", "having", "joins", "joins", "distinct", "unscoped", "scopes", "preload", "returning", "returning", "order_clause", "locking", "on_conflict", "table", "model", "attrs", "assign", "where_sub", "where_group", "where_group", "joins_db", "table", "from_clause", "group_clause", "limit_clause", "insert_modifier", "inner_joins", "select_expr", "omit_assoc"}
 
 func genStep(r *core.Rand, nHandles int, palette []string) Step {
 	st := Step{M: r.Pick(palette), V: r.Intn(6), S: fmt.Sprintf("s%d", r.Intn(50)), N: r.Intn(40)}
